@@ -14,7 +14,7 @@ func init() {
 		ID: "C11", Fn: c11, Race: true,
 		Rule:        "one evaluation = one table operation after which the real table is compared with a sequential reference model (slot -> key, move, value, depth, type, age): Put with keys built to collide in the index bits (same low 24 bits), all bound types, depths 0..127, values over the whole valid range incl. every mate score, real moves and MoveNone; Probe/GetEntry of present, evicted, never-stored keys; AgeEntries, Clear, Resize to 0,1,2,3,5,8,16,64 MB; Len/Hashfull after every operation; replacement judged in the only-if direction; capacity established behaviourally; half of the shards run under the Go race detector; distinct = distinct (operation, key, model-slot state) triples",
 		Assumptions: []string{"'aged' = age counter > 1 with the documented semantics (1 when written, +1 per AgeEntries, -1 per Probe hit, floor 0)", "declining to replace is always allowed; a same-key Put must update"},
-		Required:    []string{"ops", "puts", "collisions", "replacements", "declined_replacements", "probes_hit", "probes_miss_evicted", "probes_miss_never_stored", "age_ops", "clear_ops", "resize_ops", "mate_values", "movenone_puts", "capacity_checks", "equal_depth_aged_replacements"},
+		Required:    []string{"ops", "puts", "collisions", "replacements", "declined_replacements", "probes_hit", "probes_miss_evicted", "probes_miss_never_stored", "age_ops", "clear_ops", "resize_ops", "mate_values", "movenone_puts", "capacity_checks", "equal_depth_aged_replacements", "seam_index_classes"},
 		MinEvals:    20000,
 		TimeoutQ:    15 * 60e9,
 	})
@@ -81,6 +81,19 @@ func c11(c *Ctx) {
 			if x := r.U64(); x != 0 {
 				pool = append(pool, x)
 			}
+		}
+		// index classes on and next to the seams of any partition of the table into equal
+		// parts (bulk operations such as ageing work on parts of the table in parallel):
+		// multiples of 2048 are part boundaries for every capacity and part count used here
+		for cl := 0; cl < 2; cl++ {
+			low := uint64(1+r.Intn(255)) * 2048
+			if r.Chance(0.3) {
+				low-- // the last slot of the part before
+			}
+			for k := 0; k < 2+r.Intn(2); k++ {
+				pool = append(pool, (r.U64()&^0xFFFFFF)|low|1<<41)
+			}
+			rep.Inc("seam_index_classes")
 		}
 		var log []string
 		note := func(s string) {
